@@ -352,6 +352,9 @@ func (s *sut) clientE2EOracle(f []string, res string, fail func(clause, class, d
 			if class == "other" && !composed && c == "1" && e == "1" {
 				class = "tls-socket-not-selected-for-labelled-endpoint"
 			}
+			if class == "other" && !composed && c == "0" && e == "1" && nsLevel != "DISABLE" {
+				class = "no-tls-socket-although-namespace-level-not-disable"
+			}
 			fail("client-composed", class, detail)
 		}
 	case "noauto":
